@@ -172,7 +172,9 @@ def wrap_native_loop(tpl, steps):
 
 
 LOOP_BODIES = [
-    # name, loop text with {P} = per-iteration statement; every one is infinite
+    # name, loop text with {P} = per-iteration statement; every one is infinite by the specification.
+    # {P} carries a safety valve (returns from T after 400 iterations) so that a loop the limit fails to stop
+    # still terminates and shows up as an overrun instead of a time-out.
     ("while", "while (true) {{ {P} }}"),
     ("do", "do {{ {P} }} while (true);"),
     ("for", "for (;;) {{ {P} }}"),
@@ -184,13 +186,28 @@ LOOP_BODIES = [
     ("nested-inner", "for (var _j = 0; _j < 1; _j++) {{ while (true) {{ {P} }} }}"),
     ("while-try-continue", "while (true) {{ try {{ {P} continue; }} finally {{ }} }}"),
     ("switch-in-loop", "_l: while (true) {{ switch (1) {{ case 1: {P} continue _l; }} }}"),
+    # iterations that END IN `continue` (plain, to the own label, to an outer loop, through a finally jump table)
+    ("do-continue", "do {{ {P} continue; }} while (true);"),
+    ("do-continue-own-label", "_d: do {{ {P} continue _d; }} while (true);"),
+    ("do-continue-finally", "do {{ try {{ {P} continue; }} finally {{ }} }} while (true);"),
+    ("do-continue-from-nested", "_o: do {{ for (;;) {{ {P} continue _o; }} }} while (true);"),
+    ("do-continue-from-nested-finally", "_o: do {{ for (var _q of [1]) {{ try {{ {P} continue _o; }} finally {{ }} }} }} while (true);"),
+    ("while-continue", "while (true) {{ {P} continue; }}"),
+    ("for-continue", "for (;;) {{ {P} continue; }}"),
+    ("for-let-continue", "for (let _i = 0; ; _i++) {{ (() => _i)(); {P} continue; }}"),
+    ("for-of-continue", "for (var _v of (function*(){{ for(;;) yield 1; }})()) {{ {P} continue; }}"),
+    ("for-continue-from-nested", "_o: for (;;) {{ do {{ {P} continue _o; }} while (true); }}"),
+    # label sets: every label of `a: b: loop` designates the loop
+    ("do-2-labels-continue-outer", "_a: _b: do {{ {P} continue _a; }} while (true);"),
+    ("for-2-labels-continue-outer", "_a: _b: for (;;) {{ {P} continue _a; }}"),
+    ("while-3-labels-continue-middle", "_a: _b: _c: while (true) {{ {P} continue _b; }}"),
 ]
 
 
 def wrap_loop(route_tpl, loop_tpl, levels=2):
     """Program: T runs an infinite loop printing 'b'; the route is wrapped in try/catch/finally at every level."""
-    body = loop_tpl.format(P="print('b');")
-    t = ("function T() { try { %s } catch (e) { print('caught T'); } finally { print('finally T'); } }\n" % body)
+    body = loop_tpl.format(P="print('b'); if (++_n > 400) return;")
+    t = ("function T() { var _n = 0; try { %s } catch (e) { print('caught T'); } finally { print('finally T'); } }\n" % body)
     call = route_tpl.format(T="T")
     inner = "try { %s } catch (e) { print('caught 1'); } finally { print('finally 1'); }" % call
     for k in range(2, levels + 1):
